@@ -9,6 +9,7 @@ import (
 	"math"
 	"math/rand"
 	"sort"
+	"strconv"
 
 	"github.com/deadsy/sdfx/sdf"
 	v2 "github.com/deadsy/sdfx/vec/v2"
@@ -25,6 +26,9 @@ type c16Vec struct {
 	Q   int     `json:"q"` // denominator of the coordinates (0 = 1)
 	Pts [][]int `json:"pts"`
 	Prs [][]int `json:"prs"`
+	// ovl: the end points themselves as IEEE-754 bit patterns (decimal strings), when the pair was drawn as floats
+	// (prs then holds their ranks: the order is what the specification judges, the floats are what the code gets)
+	Bits [][]string `json:"bits"`
 	// union part (c16u.go)
 	Ops []uniOp `json:"ops"`
 	Kn  int     `json:"kn"`
@@ -46,9 +50,10 @@ type boxObs struct {
 }
 
 type ovlObs struct {
-	Ev  string  `json:"ev"`
-	Prs [][]int `json:"prs"`
-	Res []int   `json:"res"`
+	Ev   string     `json:"ev"`
+	Prs  [][]int    `json:"prs"`
+	Res  []int      `json:"res"`
+	Bits [][]string `json:"bits,omitempty"` // report only
 }
 
 // toInt projects a squared distance (in units of 1/q^2) to an integer; a value that is not an
@@ -117,9 +122,21 @@ func boxObserve(v c16Vec) boxObs {
 
 func ovlObserve(v c16Vec) ovlObs {
 	o := ovlObs{Ev: "ovl", Prs: v.Prs}
-	for _, pr := range v.Prs {
+	for i, pr := range v.Prs {
 		a := sdf.Interval{float64(pr[0]), float64(pr[1])}
 		b := sdf.Interval{float64(pr[2]), float64(pr[3])}
+		if i < len(v.Bits) && len(v.Bits[i]) == 4 {
+			var e [4]float64
+			for j, t := range v.Bits[i] {
+				u, err := strconv.ParseUint(t, 10, 64)
+				if err != nil {
+					fatal("bad bit pattern %q", t)
+				}
+				e[j] = math.Float64frombits(u)
+			}
+			a, b = sdf.Interval{e[0], e[1]}, sdf.Interval{e[2], e[3]}
+			o.Bits = append(o.Bits, v.Bits[i])
+		}
 		r := 0
 		if a.Overlap(b) {
 			r = 1
@@ -285,6 +302,15 @@ func c16Random(args []string) error {
 		o := ovlObs{Ev: "ovl"}
 		for k := 0; k < 50; k++ {
 			pool := []float64{r.NormFloat64(), r.NormFloat64(), r.NormFloat64(), r.NormFloat64() * 1e-9, r.NormFloat64() * 1e9}
+			// neighbours one and two units in the last place apart, and magnitudes whose sums overflow
+			pool = append(pool, math.Nextafter(pool[0], math.Inf(1)), math.Nextafter(pool[1], math.Inf(-1)),
+				math.Nextafter(math.Nextafter(pool[2], math.Inf(1)), math.Inf(1)))
+			switch k % 5 {
+			case 1:
+				pool = append(pool, 1e16*r.Float64(), 225, math.Nextafter(225, 1e3), 650)
+			case 2:
+				pool = []float64{1.2e308 * r.Float64(), 1.5e308, -1.5e308 * r.Float64(), 1.7e308, math.Nextafter(1.5e308, 0)}
+			}
 			e := [4]float64{}
 			for j := range e {
 				e[j] = pool[r.Intn(len(pool))]
@@ -307,6 +333,11 @@ func c16Random(args []string) error {
 			}
 			o.Prs = append(o.Prs, rk)
 			o.Res = append(o.Res, res)
+			bits := make([]string, 4)
+			for j := range e {
+				bits[j] = strconv.FormatUint(math.Float64bits(e[j]), 10)
+			}
+			o.Bits = append(o.Bits, bits)
 		}
 		emit(o)
 	}
